@@ -45,10 +45,14 @@ func c05RichCfgFor(extendedChild bool) kit.WorldCfg {
 // unique per store only)
 var c05Long64 = "id64-" + strings.Repeat("x", 59)
 
+// ... one of 128 and one of 300 bytes, and ids that differ only in letter case
+var c05Long128 = "id128-" + strings.Repeat("y", 122)
+var c05Long300 = "id300-" + strings.Repeat("w", 294)
+
 var c05IDs = map[string][]string{
-	"as": {"a1", "a10", "a2", "shared"},
-	"ak": {"a1", "a10", "a2", "shared"},
-	"bs": {"b1", "b10", "b2", "b", "shared", c05Long64},
+	"as": {"a1", "a10", "a2", "A1", "shared", c05Long128},
+	"ak": {"a1", "a10", "a2", "A1", "shared", c05Long128},
+	"bs": {"b1", "b10", "b2", "b", "B1", "shared", c05Long64, c05Long128, c05Long300},
 	"cs": {"c1", "c10", "shared"},
 	"ds": {"d1", c05Long64},
 }
